@@ -639,6 +639,9 @@ func GetHandleID(netName, containerID, workload string) string {
 }
 
 func CreateClient(conf types.NetConf) (client.Interface, error) {
+	if c, err, ok := verifClient(conf); ok {
+		return c, err
+	}
 	if err := ValidateNetworkName(conf.Name); err != nil {
 		return nil, err
 	}
